@@ -357,8 +357,7 @@ func (vm *Type) Run(retResult bool) (value.Type, error) {
 
 		case bytecode.FUNC:
 			val := vm.fetch(instr.Src0(), instr.Src0Addr(), m, ds)
-			frame := m.Top()
-			val.SetFrame(&frame)
+			val.SetFrame(m.TopRef())
 			m.Push(val)
 
 		case bytecode.CALL:
@@ -376,15 +375,13 @@ func (vm *Type) Run(retResult bool) (value.Type, error) {
 			}
 
 			m.PushFrame(args, fVal.LocalCnt)
-			m.PushClosure(*fVal.Frame)
+			m.PushClosure(fVal.Frame)
 			m.Push(value.NewInt(ip))
 
 			ip = fVal.Node - 1
 
 		case bytecode.RET:
 			val := vm.fetch(instr.Src0(), instr.Src0Addr(), m, ds)
-
-			val = detachFrames(val)
 
 			nip := m.IP()
 			if nip == nil {
@@ -608,41 +605,6 @@ func (vm *Type) dumpStack(ctx *context, ip int, err error, values ...value.Type)
 	vm.main.children.Clear()
 
 	return value.Nil, err
-}
-
-// detachFrames gives every function value leaving a call its own copy of the
-// closure frame it captured: the frame it points to is a slice of the stack
-// that the return is about to release. Function values may leave inside arrays.
-func detachFrames(val value.Type) value.Type {
-	if f, ok := val.ToFunction(); ok {
-		if f.Frame != nil {
-			frame := slices.Clone(*f.Frame)
-			val.SetFrame(&frame)
-		}
-		return val
-	}
-
-	if ary, ok := val.ToArray(); ok && hasFunction(ary) {
-		detached := make([]value.Type, len(ary))
-		for i, e := range ary {
-			detached[i] = detachFrames(e)
-		}
-		return value.NewArray(detached)
-	}
-
-	return val
-}
-
-func hasFunction(ary []value.Type) bool {
-	for _, e := range ary {
-		if _, ok := e.ToFunction(); ok {
-			return true
-		}
-		if sub, ok := e.ToArray(); ok && hasFunction(sub) {
-			return true
-		}
-	}
-	return false
 }
 
 func hashContext(m *memory.Type, id int) uint64 {
